@@ -10,7 +10,7 @@ LEVEL = "model_checking"
 PRESETS = ["strict", "default", "tolerant", "lenient", "skip_errors"]
 
 
-def run_cases(bases, cases_path, trace, work, seed, ncases, wall_per_case=120):
+def run_cases(bases, cases_path, trace, work, seed, ncases, wall_per_case=120, vh=None):
     """Drive `vh c01 run`; a dead or stuck worker is data: the case in flight gets the outcome "abort" / "timeout"
     under every preset, and the worker is restarted behind it."""
     prog = os.path.join(work, "progress")
@@ -21,7 +21,7 @@ def run_cases(bases, cases_path, trace, work, seed, ncases, wall_per_case=120):
     while start < ncases:
         with open(prog, "w") as f:
             f.write("%d\n" % start)
-        p = subprocess.Popen([vlib.VH, "c01", "run", "--bases", bases, "--in", cases_path, "--out", trace, "--progress", prog, "--from", str(start), "--seed", str(seed)],
+        p = subprocess.Popen([vh or vlib.VH, "c01", "run", "--bases", bases, "--in", cases_path, "--out", trace, "--progress", prog, "--from", str(start), "--seed", str(seed)],
                              stdout=subprocess.DEVNULL, stderr=subprocess.PIPE, preexec_fn=lambda: __import__("resource").setrlimit(__import__("resource").RLIMIT_AS, (8 << 30, 8 << 30)))
         last, last_t, why = None, time.time(), None
         while True:
@@ -103,7 +103,9 @@ def run(ctx):
                 "overwritten by a boundary literal of its class (-1, 0, 2^8, 2^16, 2^31-1, 2^31, 2^32-1, 2^32, 2^63-1, 2^63, 2^64, 2^128, their "
                 "negatives, reals, signs alone; octal 400/777, hex strings of odd length, ASCII85 groups above 2^32-1), truncation, "
                 "deletion, duplication, zeroing, 0xFF-filling and bit-flipping of ranges at 64 positions, structural keywords replaced, "
-                "random bytes with and without a header, and pairs of slot faults.  MCFaults (TLC) enumerates the cases; the harness "
+                "random bytes with and without a header, pairs of slot faults, the startxref block moved in front of the cross-reference section it "
+                "names with that section cut after 0-12 lines (a valid pointer into a section that ends with the file), and small valid "
+                "files with a run of 4 000 or 200 000 skipped tokens (comment, blank, line end, NUL) at each of 16 syntactic places.  MCFaults (TLC) enumerates the cases; the harness "
                 "applies each to its base and navigates the result under the five presets (open, page count, metadata, catalog, each page, "
                 "resources, annotations, content streams, text extraction with and without layout, every stream object decoded) on a thread "
                 "with an 8 MB stack, with processor time and peak live memory measured.  RobustTrace (TLC) requires of every recorded case "
@@ -111,7 +113,7 @@ def run(ctx):
                 "not a dead process, not a timeout - within 60 s of processor time and 1 GB + 64 x input of live memory.  Non-trivial = "
                 "every case; distinct by hash.")
     ctx.assumptions = ["the library-written base with object streams is not used: its cross-reference stream has a million entries (object stream number 1000000) and costs 10-20 s per read in the unoptimised build",
-                       "budgets are those of an unoptimised build with overflow and debug assertions on; inputs are a few KB",
+                       "budgets are those of a build with the library at opt-level 1, overflow and debug assertions on; inputs are a few KB; the thorough tier repeats the stack-depth families (runs, bombs, self-referential and deeply nested bodies) on a build with the library at opt-level 0",
                        "a process killed by a signal (stack overflow, abort on allocation failure) or stuck for 120 s wall time is recorded as the answer of the case in flight"]
     bases = os.path.join(ctx.work, "bases.ndjson")
     vlib.vh(["c01", "bases", "--out", bases])
@@ -139,6 +141,26 @@ def run(ctx):
     deaths = run_cases(bases, of, tp, ctx.work, ctx.seed, n, wall_per_case=900 if thorough else 240)
     ctx.extra["worker_deaths"] = deaths
     validate_robust(ctx, tp, base_events, "fault-case")
+    if thorough:
+        # the stack-depth families once more on a build with the library at opt-level 0 (cargo's default for a user's debug
+        # build): recursion that an optimised build turns into a loop is still recursion there
+        vh0 = vlib.build_harness_unoptimised()
+        sub = []
+        for l in open(of):
+            if l.startswith('<<"REPLAY"'):
+                c = json.loads(json.loads(l[len('<<"REPLAY", '):-3]))
+                ks = [f["k"] for f in c["faults"]]
+                if "run" in ks or "bomb" in ks or any(f["k"] == "body" and f["val"] in ("deep", "deepdict", "self", "next") for f in c["faults"]):
+                    sub.append(c)
+        of0 = os.path.join(ctx.work, "faults0.ndjson")
+        vlib.write_ndjson(of0, sub)
+        tp0 = os.path.join(ctx.work, "robust0.ndjson")
+        deaths0 = run_cases(bases, of0, tp0, ctx.work, ctx.seed, len(sub), wall_per_case=900, vh=vh0)
+        ctx.extra["unoptimised_pass"] = {"cases": len(sub), "worker_deaths": deaths0}
+        validate_robust(ctx, tp0, base_events, "fault-case-unoptimised-build")
+        ctx.traces += 1
+        for e in vlib.read_ndjson(tp0):
+            ctx.count_case({"base": e["base"], "faults": e["faults"], "build": "opt-level 0"}, True)
     ctx.traces += 1
     evs = vlib.read_ndjson(tp)
     if len(evs) != n:
